@@ -142,6 +142,10 @@ def run_shard(shard: dict) -> Res:
     for pi in range(shard["programs"]):
         g = Gen(rng, weights=WEIGHTS, size=(6, 24), rom=rng.choice(["low", "low", "high"]))
         p = g.program()
+        if pi % 5 == 4:
+            # a long file: hundreds of statements before the fault, so that line numbers pass 255 and 1000
+            n = rng.choice([260, 700, 1100])
+            p["prog"] = p["prog"][:1] + [{"k": "data", "d": "db", "es": [[["num", str(i & 255), i & 255]]]} for i in range(n)] + p["prog"][1:]
         if rng.random() < 0.5:
             for _ in range(rng.randint(1, 2)):
                 ex = extract_include(p["prog"], rng)
@@ -153,8 +157,9 @@ def run_shard(shard: dict) -> Res:
                 pts = [w for w in pts if reachable(p["prog"], w[0])]
             if kind == "scan_eof":
                 pts = [w for w in pts if w[1] == len(w[0]) and (w[0] is p["prog"] or any(st["k"] == "include" and st["b"] is w[0] for st, _, _ in walk(p["prog"])))]
-            if shard["positions"] is not None and len(pts) > shard["positions"]:
-                pts = rng.sample(pts, shard["positions"])
+            limit = shard["positions"] if shard["positions"] is not None else (40 if len(pts) > 200 else None)
+            if limit is not None and len(pts) > limit:
+                pts = rng.sample(pts, limit - 2) + [pts[-1], pts[len(pts) // 2]]
             for where in pts:
                 check_case(res, p, name, where, rng.getrandbits(32))
         if pi == 0:
